@@ -14,6 +14,24 @@ impl ByteCompiler<'_> {
     }
 
     fn continue_jump_record_actions(&self, node: Continue) -> Vec<JumpRecordAction> {
+        // Every label of a label set designates the iteration statement itself
+        // (`a: b: do { continue a; } while (c)`), but only the innermost label is recorded on the
+        // loop's control info; the outer ones have a labelled-block control info of their own,
+        // whose start address is in front of the whole loop (before its initializer, condition
+        // and `IncrementLoopIteration`). Resolve such a label to the loop it labels: that is the
+        // first loop control info above it (only the other labels of the set lie in between).
+        let target = node.label().and_then(|label| {
+            let i = self
+                .jump_info
+                .iter()
+                .rposition(|info| info.label() == Some(label))?;
+            if self.jump_info[i].is_loop() {
+                Some(i)
+            } else {
+                (i + 1..self.jump_info.len()).find(|&k| self.jump_info[k].is_loop())
+            }
+        });
+
         let mut actions = Vec::default();
         for (i, info) in self.jump_info.iter().enumerate().rev() {
             let count = self.jump_info_open_environment_count(i);
@@ -31,7 +49,7 @@ impl ByteCompiler<'_> {
             }
 
             if let Some(label) = node.label() {
-                if info.label() == Some(label) {
+                if target.map_or(info.label() == Some(label), |t| t == i) {
                     actions.push(JumpRecordAction::Transfer { index: i as u32 });
                     break;
                 }
